@@ -103,7 +103,13 @@ impl v::Executor for HistExec {
             return v::Release::Finish { index, termination: v::Termination::Interrupted, output: vec![] };
         }
         if toks.iter().any(|t| t == b"!fail") {
-            return v::Release::Finish { index, termination: v::Termination::Failure, output: vec![b"boom\n".to_vec()] };
+            // a failing compiler still prints its include notes first
+            let mut o: Vec<u8> = vec![];
+            if info.showinc {
+                for t in toks.iter().filter(|t| t.len() > 1 && t[0] == b'#') { o.extend_from_slice(b"Note: including file:  "); o.extend_from_slice(&t[1..]); o.extend_from_slice(b"\r\n"); }
+            }
+            o.extend_from_slice(b"boom\n");
+            return v::Release::Finish { index, termination: v::Termination::Failure, output: vec![o] };
         }
         let reads_deps = info.depfile.is_some() || info.showinc;
         let deps: Vec<Vec<u8>> = if reads_deps {
@@ -266,15 +272,16 @@ fn src_content(rng: &mut Rng, version: usize) -> Vec<u8> {
     s.into_bytes()
 }
 
-enum Op { W(String, i64, Vec<u8>), D(String), I { par: usize, k: Option<usize>, adopt: bool, targets: Vec<String> } }
+enum Op { W(String, i64, Vec<u8>), D(String), I { par: usize, k: Option<usize>, adopt: bool, targets: Vec<String>, mf: String } }
 
 fn op_tokens(op: &Op) -> String {
     match op {
         Op::W(n, m, c) => format!("W {} {} {}", hex(n.as_bytes()), m, hex(c)),
         Op::D(n) => format!("D {}", hex(n.as_bytes())),
-        Op::I { par, k, adopt, targets } => {
+        Op::I { par, k, adopt, targets, mf } => {
             let mut s = format!("I {} {} {} {}", par, k.map(|k| k.to_string()).unwrap_or("-".into()), if *adopt { 1 } else { 0 }, targets.len());
             for t in targets { s.push(' '); s.push_str(&hex(t.as_bytes())); }
+            s.push(' '); s.push_str(&hex(mf.as_bytes()));
             s
         }
     }
@@ -361,10 +368,12 @@ pub fn run(ctx: &mut Ctx) {
                 let mut targets = vec![];
                 if rng.chance(1, 3) { let outs = proj.all_outs(); if !outs.is_empty() { targets.push(outs[rng.below(outs.len())].clone()); } }
                 if rng.chance(1, 30) { targets.push("./o0".into()); }
-                ops.push(Op::I { par: rng.range(1, 3), k: if rng.chance(1, 3) { Some(rng.range(1, 2)) } else { None }, adopt: rng.chance(1, 30), targets });
+                // the manifest named by `-f` under different spellings of the same file
+                let mf = match rng.below(12) { 0 => "./build.ninja", 1 => "zz/../build.ninja", _ => "build.ninja" }.to_string();
+                ops.push(Op::I { par: rng.range(1, 3), k: if rng.chance(1, 3) { Some(rng.range(1, 2)) } else { None }, adopt: rng.chance(1, 30), targets, mf });
                 if rng.chance(1, 2) && !last_was_invoke {
                     // immediately again: must be a no-op after a success
-                    ops.push(Op::I { par: 2, k: None, adopt: false, targets: vec![] });
+                    ops.push(Op::I { par: 2, k: None, adopt: false, targets: vec![], mf: "build.ninja".into() });
                 }
                 last_was_invoke = true;
                 continue;
@@ -413,7 +422,7 @@ pub fn run(ctx: &mut Ctx) {
                 ops.push(Op::W(manifest_file(&proj).to_string(), clock, proj.manifest().into_bytes()));
             }
         }
-        if !matches!(ops.last(), Some(Op::I { .. })) { ops.push(Op::I { par: 2, k: None, adopt: false, targets: vec![] }); }
+        if !matches!(ops.last(), Some(Op::I { .. })) { ops.push(Op::I { par: 2, k: None, adopt: false, targets: vec![], mf: "build.ninja".into() }); }
         let mut case = format!("hist {}", ops.len());
         for op in &ops { case.push(' '); case.push_str(&op_tokens(op)); }
         let ninv = ops.iter().filter(|o| matches!(o, Op::I { .. })).count();
@@ -429,7 +438,7 @@ pub fn run(ctx: &mut Ctx) {
                 match op {
                     Op::W(n, m, c) => { write_file(Path::new(n), c, *m); }
                     Op::D(n) => { let _ = std::fs::remove_file(n); }
-                    Op::I { par, k, adopt, targets } => {
+                    Op::I { par, k, adopt, targets, mf } => {
                         let steps = match std::panic::catch_unwind(|| { v::pause_event_log(true); let r = v::load_read("build.ninja"); v::pause_event_log(false); r }) {
                             Ok(Ok(st)) => steps_of(&st),
                             _ => { v::pause_event_log(false); HashMap::new() }
@@ -440,7 +449,7 @@ pub fn run(ctx: &mut Ctx) {
                         v::set_progress_override(Some(&REC_PROGRESS));
                         v::set_executor(Some(Box::new(exec)));
                         let tickets_before = v::exec_tickets();
-                        let r = std::panic::catch_unwind(std::panic::AssertUnwindSafe(|| v::verif_build(options, None, targets.clone())));
+                        let r = std::panic::catch_unwind(std::panic::AssertUnwindSafe(|| v::verif_build(options, Some(mf.clone()), targets.clone())));
                         let evs = v::take_events();
                         let started = evs.iter().filter(|e| matches!(e, v::Event::Note(t) if t.starts_with("B "))).count() as u64;
                         let deadline = std::time::Instant::now() + std::time::Duration::from_secs(10);
@@ -461,5 +470,7 @@ pub fn run(ctx: &mut Ctx) {
             }
             format!("{} %% {}", parts.join(" ; "), logs.join(" "))
         });
+        let an = take_anomalies();
+        ctx.emit_anomalies(&format!("hist {}", ctx.index - 1), an);
     }
 }
